@@ -2321,7 +2321,7 @@ def run(ctx):
     for t in SERIALIZER_NOTES[:3]:
         ctx.note(t)
     for st, k in sorted(SKIPPED.items()):
-        ctx.note('stream %s: %d scenarios skipped by the harness (an internal it reaches for has moved)' % (st, k))
+        ctx.note('stream %s: %d scenarios skipped by the harness (it could not set them up: see the first note of the stream)' % (st, k))
     if SKIPPED and ctx.cases == 0:
         raise RuntimeError('no stream of C04 could run: %r' % (SKIPPED,))
     if errors:
